@@ -16,7 +16,9 @@ CHECKS = {
             "request and no request head may start on a connection whose previous exchange is unfinished or announced close.",
             "harness-scheduled asyncio and trio runs (choice lists, late-loop and two-actions-at-once schedules); in undisturbed runs no request may "
             "fail; layer real-concurrent repeats token echo / no-failure with 2-6 async callers over real sockets (schedule not controlled there); "
-            "schedules sampled; the server is well-behaved by construction.",
+            "schedules sampled; the server is well-behaved by construction (it may answer early, as soon as the request head has arrived). Layer "
+            "fault-then-reuse enumerates a fault of every kind at every network operation of an exchange followed by two more requests to the same "
+            "origin (inline sync + async); cancellations can also be requested at the moment another task hands the victim a connection.",
             "3 C01"),
     "C02": ("exploration",
             "Hypothesis-generated responses x bounded-exhaustive cut/truncation positions against the server plan's ground truth",
@@ -26,14 +28,15 @@ CHECKS = {
             "Own wire builders (vf/peers/h1.py, h2.py on hyperframe+hpack) define ground truth; responses are sampled, cut "
             "positions exhaustive per response up to 1200 wire bytes (structural offsets + grid beyond). Layer real-backends repeats the "
             "ground-truth comparison through httpcore's own sync/anyio/trio backends over loopback sockets with real TLS (segmentation there is "
-            "the kernel's, not controlled).",
+            "the kernel's, not controlled). HTTP/2 responses are also reset (RST_STREAM, 9 error codes incl. NO_ERROR) after every prefix of their frames.",
             "3 C02"),
     "C03": ("exploration",
             "Hypothesis-generated requests decoded by an independent parser (own HTTP/1.1 parser; hyperframe+hpack for HTTP/2) and compared with the caller's request",
             "Generated legal and definitely-illegal requests over HTTP/1.1 and HTTP/2, first use and reuse, three API entry points, "
             "plus GOAWAY-refused re-sends; every transmission is decoded independently and must equal the caller's request, illegal "
             "heads must raise LocalProtocolError with nothing written.",
-            "Own decoders are the reference; header-name case on HTTP/1.1 and connection-specific headers are outside the oracle.",
+            "Own decoders are the reference; header-name case on HTTP/1.1 and connection-specific headers are outside the oracle. The resend layer also covers "
+            "HTTP/1.1 requests on a reused connection that is hit by a fault at a drawn operation: every complete transmission is judged.",
             "3 C03"),
     "C04": ("exploration",
             "same generated concurrent histories; invariant monitor evaluated after every simulated network op and at every quiescence",
@@ -99,12 +102,13 @@ CHECKS = {
             "open-stream count at every stream-opening HEADERS must respect the ACKed limit, non-reset streams must complete.",
             "asyncio and trio drivers; layer pool-histories: undisturbed HTTP/2 histories through the pool (evictions, keep-alive 0, bursts) - no "
             "request may fail because of what siblings or other origins did; layer real-concurrent: the same over real sockets; "
-            "MAX_CONCURRENT_STREAMS=0 not generated; interleavings sampled.",
+            "MAX_CONCURRENT_STREAMS=0 not generated; interleavings sampled; scripted PINGs may come from a server that holds back the streams until "
+            "its PING has been acknowledged.",
             "3 C12"),
     "C13": ("exploration",
             "Hypothesis-generated upload/download scenarios against a peer that keeps its own window and frame-size accounting, plus an enumerated grid of sizes x policies; starvation decided at quiescence",
             "1-3 concurrent uploads around the window boundaries with peer-chosen INITIAL_WINDOW_SIZE / MAX_FRAME_SIZE / WINDOW_UPDATE policy and "
-            "mid-upload window changes; downloads beyond the client's 2^24+65,535 credit and sequences of multi-MiB downloads. DATA frames must fit the "
+            "mid-upload window and MAX_FRAME_SIZE changes (raised and lowered); downloads beyond the client's 2^24+65,535 credit and sequences of multi-MiB downloads. DATA frames must fit the "
             "ACKed frame size and both windows, uploads arrive intact, no upload waits while it holds credit, downloads complete.",
             "the peer's accounting is the reference (lenient in the client's favour while SETTINGS are un-ACKed).",
             "3 C13"),
@@ -123,7 +127,8 @@ CHECKS = {
             "connection kinds, and caller-invalid requests: only documented httpcore exceptions of the right class may reach the caller, and the call ends.",
             "Replay peer semantics (vf/peers/replay.py); libFuzzer campaigns are reproducible only through their saved case files. Layer "
             "real-backends injects real network faults (RST, FIN, silence, TLS alerts / bad records, refused / hanging connects) under "
-            "httpcore's own backends; verdicts there are made independent of machine load (DESIGN 8.7).",
+            "httpcore's own backends; verdicts there are made independent of machine load (DESIGN 8.7). Layer h2-siblings: 2-3 streamed HTTP/2 "
+            "responses are open on one connection when the defective frames arrive; every step (open, read, close) of every stream is judged.",
             "3 C15"),
     "C16": ("exploration",
             "exhaustive configuration matrix over the op trace of a simulated backend (timeout argument of every network op) + virtual-clock pool-timeout schedules",
@@ -139,14 +144,16 @@ CHECKS = {
             "{1,2,64} up to length 3; random layer with up to 200 kB leading data, interleaved writes and reads; tunnel proxy CONNECT "
             "reply head under every single cut.",
             "Peer echo stands for live data; reads are only issued when the model says bytes are pending. Layer real-backends: 101 Upgrade over "
-            "real sockets (plain, TLS, TLS-in-TLS, SOCKS, CONNECT) through httpcore's own backends with a segmentation-independent echo.",
+            "real sockets (plain, TLS, TLS-in-TLS, SOCKS, CONNECT) through httpcore's own backends with a segmentation-independent echo, plus a "
+            "full-duplex step on plain-TCP kinds (a read pending on live data while another thread / task writes).",
             "3 C17"),
     "C18": ("translation_validation",
             "exhaustive line-by-line re-translation with the repository's own unasync_line + generated sync/async differential",
             "Every line of every _async/_sync file pair is re-translated and compared (exhaustive over the source); generated "
             "single-caller scenarios are run through both API variants and all observables compared.",
             "Trusts scripts/unasync.py of the working tree as the reference translator and SimNet as the common peer; the differential also "
-            "runs the async classes on trio, and (layer real-backends) all four variants over real sockets.",
+            "runs the async classes on trio, and (layer real-backends) all four variants over real sockets (for a silent peer a Timeout class in one "
+            "variant against an error class in another is a difference; which short limit expired is not).",
             "3 C18"),
     "C19": ("exploration",
             "Hypothesis property tests against an own RFC 3986 splitter (reference model) plus origin/round-trip/Host laws",
